@@ -48,6 +48,18 @@ Theorem C05_file_path_every_schedule {F} (fo : fops F) (orc : oracles F) (nt nl 
   concat (map (map (value fo orc nt nl fk sK0 P0 mK t0 w0)) batches) = map (value fo orc nt nl fk sK0 P0 mK t0 w0) rows.
 Proof. exact (fun Hok Hloc => file_path_every_schedule fo orc nt nl fk sK0 P0 mK t0 Hok Hloc w0 rows n_batches ws sch). Qed.
 
+Theorem C05_idx_path_every_schedule {F} (fo : fops F) (orc : oracles F) (nt nl : nat) (fk : Z) (sK0 P0 mK t0 : F)
+    (w0 : kst) (idx_rows : list (arr1 F)) (n_batches : Z) (ws : list kst) (sch : list (nat * nat)) :
+  let batches := map (task_rows idx_rows) (batch_tasks_gen (Z.of_nat (length idx_rows)) n_batches 0 false) in
+  (forall row s, exists Y U, o_inv orc nl (Atmp_arg fo nt nl (pre fo orc nt fk sK0 P0 mK t0 row s)) = Some Y /\
+                             o_lu orc nt (Btmp_arg fo nt nl (pre fo orc nt fk sK0 P0 mK t0 row s)) = Some U) ->
+  oracles_local orc ->
+  idx_rows <> [] -> (1 <= n_batches)%Z -> Forall (cfg_eq nt fk w0) ws -> complete (length batches) (length ws) sch ->
+  pool_map kst (list (arr1 F)) (list F) (step_batch fo orc nt nl fk sK0 P0 mK t0) batches ws sch
+  = map (fun b => Some (map (value fo orc nt nl fk sK0 P0 mK t0 w0) b)) batches /\
+  concat (map (map (value fo orc nt nl fk sK0 P0 mK t0 w0)) batches) = map (value fo orc nt nl fk sK0 P0 mK t0 w0) idx_rows.
+Proof. exact (fun Hok Hloc => idx_path_every_schedule fo orc nt nl fk sK0 P0 mK t0 Hok Hloc w0 idx_rows n_batches ws sch). Qed.
+
 (* non-vacuity of the schedule model: 3 tasks on 2 workers whose state counts the tasks they ran, completion order 2, 0, 1 *)
 Example C05_sched_ex :
   pool_map nat nat nat (fun st t => (S st, 10 * t)%nat) [1; 2; 3]%nat [0; 0]%nat [(1, 2); (0, 0); (1, 1)]%nat = [Some 10; Some 20; Some 30]%nat
@@ -61,3 +73,4 @@ Qed.
 Print Assumptions C05_pool_any_schedule.
 Print Assumptions C05_marginal_every_schedule.
 Print Assumptions C05_file_path_every_schedule.
+Print Assumptions C05_idx_path_every_schedule.
